@@ -3,6 +3,7 @@ package pebbles
 import (
 	"encoding/json"
 	"net/http"
+	"sync"
 
 	"github.com/buildbuildio/pebbles/requests"
 )
@@ -34,6 +35,7 @@ type vRecvFile struct {
 
 var vRecv []vRecvFile
 var vPlainCalls []string // urls that received a plain JSON call
+var vRecvMu sync.Mutex   // the services of one request are called from concurrent goroutines
 
 func vPathGet(vars map[string]interface{}, path []string) (interface{}, bool) {
 	var cur interface{} = vars
@@ -78,6 +80,8 @@ func vSplitDots(s string) []string {
 // vMultipartService plays the downstream service for a multipart call
 func vMultipartService(url string, req *http.Request) (*http.Response, bool) {
 	mp := verifRequestMultipart(req)
+	vRecvMu.Lock()
+	defer vRecvMu.Unlock()
 	if mp == nil {
 		vPlainCalls = append(vPlainCalls, url)
 		return nil, false
@@ -125,7 +129,7 @@ func vUploadCases() []vUpCase {
 		{query: `mutation($fs: [Upload!]!) { upMany(fs: $fs) }`, vars: `{"fs": [null, null]}`, fmap: map[string][]string{"0": {"variables.fs.0"}, "1": {"variables.fs.1"}}, owners: map[string][]string{"0": {"svc0"}, "1": {"svc0"}}},
 		{query: `mutation($f: Upload!) { up(f: $f) other(f: $f) }`, vars: `{"f": null}`, fmap: map[string][]string{"0": {"variables.f"}}, owners: map[string][]string{"0": {"svc0", "svc1"}}, known: "C19-one-file-for-two-services"},
 		{query: `mutation($f: Upload!, $x: Int) { other(f: $f) plain(x: $x) }`, vars: `{"f": null, "x": 3}`, fmap: map[string][]string{"0": {"variables.f"}}, owners: map[string][]string{"0": {"svc1"}}},
-		{query: `mutation($fs: [Upload!]!) { upMany(fs: $fs) }`, vars: `{"fs": [null, null]}`, fmap: map[string][]string{"0": {"variables.fs.0", "variables.fs.1"}}, owners: map[string][]string{"0": {"svc0"}}, known: "C19-one-file-at-two-paths"},
+		{query: `mutation($fs: [Upload!]!) { upMany(fs: $fs) }`, vars: `{"fs": [null, null]}`, fmap: map[string][]string{"0": {"variables.fs.0", "variables.fs.1"}}, owners: map[string][]string{"0": {"svc0"}}},
 		// eleven files: list index 10 sorts before index 2 as a string
 		{query: `mutation($fs: [Upload!]!) { upMany(fs: $fs) }`, vars: `{"fs": [null, null, null, null, null, null, null, null, null, null, null]}`,
 			fmap: map[string][]string{"0": {"variables.fs.0"}, "1": {"variables.fs.1"}, "2": {"variables.fs.2"}, "3": {"variables.fs.3"}, "4": {"variables.fs.4"}, "5": {"variables.fs.5"},
